@@ -210,6 +210,22 @@ add("C18", "other",
     "points are driven (no crafted __setstate__, no malformed set_validate descriptors).",
     "DESIGN.md section 4 C18")
 
+add("C19", "fault_enumeration",
+    "k-th-callback fault injection enumerated per history, judged by commit-point roles against a fault-free twin",
+    "Generated histories (about 10 ops over validator functions, TraitType subclasses, compound alternatives, "
+    "container item/key/value validators with multi-item arguments, default methods/factories, property "
+    "getters/setters incl. cached observed properties, adapter factories, change handlers of three mechanisms); "
+    "for every op j, every user-callback tick k learnt from a fault-free twin and every E in {TraitError, "
+    "ValueError, AttributeError, RuntimeError} the prefix is replayed, the fault injected, and the run judged: "
+    "pre-commit faults must leave values, contents, notifier census and caches as before with E or TraitError "
+    "reaching the caller (or equal the TraitError twin for compound alternatives); post-commit faults must "
+    "complete the operation, run all other handlers and surface only on the exception channel; the remaining "
+    "history must then behave exactly as on the never-faulted twin.",
+    "Fault positions are enumerated completely per generated history; histories are sampled. Notifications whose "
+    "subject is a property whose getter was faulted are exempt (a value that could not be computed cannot be "
+    "reported). Raw TraitList.notifiers callables, Events, sync_trait and del are outside the alphabet.",
+    "DESIGN.md section 4 C19")
+
 add("C20", "exploration",
     "link-graph model monitor (union-find + one-way edges) over random two/three-object histories with recorders and exception channels",
     "2-3 objects with Int/Str/List(Int) traits; histories of sync_trait (mutual, one-way, aliases, several "
